@@ -707,10 +707,11 @@ class Interp(object):
             if i == len(e.values) - 1:
                 return v
             t = self.truth(v, x)
+            pure = isinstance(v, Unk) and v.src and v.src[0] == 'cond'
             if is_and and not t:
-                return v
+                return False if pure else v
             if not is_and and t:
-                return v
+                return True if pure else v
         return v
 
     def ex_IfExp(self, e):
